@@ -152,3 +152,59 @@ pub fn tokenize(text: &str) -> String {
         out.join(",")
     }
 }
+
+/// Distinct `read_text` spans of all start tags of `text` (inputs of the URI oracle etc.).
+pub fn spans(text: &str) -> Vec<String> {
+    let enc = tokenize(text);
+    let mut out: Vec<String> = vec![];
+    if enc == "." {
+        return out;
+    }
+    for ev in enc.split(',') {
+        let f: Vec<&str> = ev.split('|').collect();
+        if f.len() == 6 && f[0] == "S" {
+            if let Some(h) = f[4].strip_prefix('s') {
+                if let Some(b) = crate::util::unhex(h) {
+                    if let Ok(s) = String::from_utf8(b) {
+                        if !out.contains(&s) {
+                            out.push(s);
+                        }
+                    }
+                }
+            }
+        }
+    }
+    out
+}
+
+fn opt(s: Option<&str>) -> String {
+    match s {
+        None => "n".into(),
+        Some(v) => format!("s{}", crate::util::hexs(v)),
+    }
+}
+
+/// URI oracle line for `modeld`: `hex:scheme/auth/path/query/frag` or `hex:!` per span, `;`-separated.
+pub fn uri_oracle(spans: &[String]) -> String {
+    use iri_string::types::UriStr;
+    let mut items = vec![];
+    for s in spans {
+        match UriStr::new(s) {
+            Err(_) => items.push(format!("{}:!", crate::util::hexs(s))),
+            Ok(u) => items.push(format!(
+                "{}:{}/{}/{}/{}/{}",
+                crate::util::hexs(s),
+                crate::util::hexs(u.scheme_str()),
+                opt(u.authority_str()),
+                crate::util::hexs(u.path_str()),
+                opt(u.query_str()),
+                opt(u.fragment().map(|f| f.as_str()))
+            )),
+        }
+    }
+    if items.is_empty() {
+        ".".into()
+    } else {
+        items.join(";")
+    }
+}
